@@ -10,6 +10,13 @@ from mc.observe import read_all, rec_core, typed_eq, site_of
 from mc.props.c17 import base_files, _sections
 from mc.spec import to_jsonable, from_jsonable
 
+
+def _int_limit():
+    import sys
+    n = sys.get_int_max_str_digits()
+    return n if n else float('inf')
+
+
 ID = 'C12'
 LEVEL = 'model_checking'
 
@@ -26,7 +33,7 @@ INT = re.compile(r'-?[0-9]+')
 
 def conv(v):
     # CPython refuses to convert more than 4300 digits: verbatim then
-    return int(v) if INT.fullmatch(v) and len(v) <= 4300 else v
+    return int(v) if INT.fullmatch(v) and len(v) <= _int_limit() else v
 
 
 def files():
